@@ -71,7 +71,8 @@ impl GSpec {
                 let e = Aff::new(vec![vec![0.0; d]; d], vec![-1.0; d]).to_real();
                 AffTree::<2>::from_poly(polytope(rows), Aff::identity(d).to_real(), if *with_else { Some(&e) } else { None }).unwrap()
             }
-            GSpec::User(t) => t.build::<2>(),
+            // storage layout by size: depth-first, breadth-first, re-used indices, column-major matrices
+            GSpec::User(t) => t.build_layout::<2>((t.n_nodes() % 4) as u8),
             GSpec::Eliminated(g) => {
                 let mut t = g.build(d);
                 t.infeasible_elimination();
@@ -149,7 +150,7 @@ impl Op {
     /// run on the real tree; Err(panic message)
     pub fn run(&self, t: &mut AffTree<2>, d: usize) -> Result<(), String> {
         catch(|| match self {
-            Op::Apply(a) => t.apply_func(&a.to_real()),
+            Op::Apply(a) => t.apply_func(&a.to_real_auto()),
             Op::Compose(g, prune) => {
                 let gt = g.build(d);
                 if *prune {
@@ -163,7 +164,7 @@ impl Op {
             }
             Op::Reduce => t.reduce(),
             Op::Arith(c, o) => {
-                let b = o.build::<2>();
+                let b = o.build_layout::<2>((o.n_nodes() % 4) as u8);
                 let a = std::mem::replace(t, AffTree::<2>::new(1));
                 *t = match c {
                     '+' => a + &b,
@@ -178,7 +179,7 @@ impl Op {
             }
             Op::ArithAff(c, f, left) => {
                 let a = std::mem::replace(t, AffTree::<2>::new(1));
-                let f = f.to_real();
+                let f = f.to_real_auto();
                 *t = match (c, left) {
                     ('+', false) => a + &f,
                     ('-', false) => a - &f,
@@ -280,13 +281,13 @@ impl Init {
     pub fn build(&self) -> AffTree<2> {
         match self {
             Init::New(d) => AffTree::<2>::new(*d),
-            Init::FromAff(a) => AffTree::<2>::from_aff(a.to_real()),
+            Init::FromAff(a) => AffTree::<2>::from_aff(a.to_real_auto()),
             Init::FromPoly(rows, t, e) => {
                 let er = e.as_ref().map(|x| x.to_real());
                 AffTree::<2>::from_poly(polytope(rows), t.to_real(), er.as_ref()).unwrap()
             }
             Init::Schema(g, d) => g.build(*d),
-            Init::Spec(t) => t.build::<2>(),
+            Init::Spec(t) => t.build_layout::<2>((t.n_nodes() % 4) as u8),
             Init::Seeded(i, pts) => {
                 let mut t = i.build();
                 t.tree.node_value_mut(0).unwrap().state =
